@@ -4,6 +4,7 @@
    all states visited agree /\ the agency of the state reached (terminal or not) agrees. *)
 From Coq Require Import String.
 From V Require Import Lib.Base Lib.Automata Lib.Bisim C16.Model C16.Proofs.
+(* end of imports *)
 
 Theorem C16_handshake_ntn : conforms impl_handshake_ntn_client spec_handshake /\ conforms impl_handshake_ntn_server spec_handshake.
 Proof. split; apply conforms_by_check; vm_compute; reflexivity. Qed.
